@@ -22,7 +22,7 @@ TEXT = {
     "C03": ("C03_passive (Scope/Provide/Decorate/Visualize/String report no event, any state) and C03_invoke_registry (the resolver never changes the registry) are proved for the model",
             "execution order and closure (only the needed functions run, dependencies complete first) compared with the model on every explored program; trace predicate pred_c03"),
     "C04": ("C04_required_missing, C04_optional_missing, C04_shallow, C04_shallow_single, C04_ctor_not_run (a constructor with a missing direct dependency is not entered and logs nothing), C04_optional_absorbs_only_missing are proved", "verdict class, missing keys, zero-valued optional arguments compared with the model"),
-    "C05": ("graph half proved at full strength for every graph size: C05_dfs_sound, C05_path, C05_dfs_total, C05_dfs_complete (Dfs.isAcyclic = internal/graph.IsAcyclic); the on-stack guard (C20_onstack) is proved to stop re-entry",
+    "C05": ("graph half proved at full strength for every graph size: C05_dfs_sound, C05_path, C05_dfs_total, C05_dfs_complete (Dfs.isAcyclic = internal/graph.IsAcyclic); resolver half: C05_resolver_terminates (any registry, cyclic or not: a Call never exhausts a recursion budget of idle*(D+3)+1 because nodes being built are marked and never re-entered — induction on the budget with the balanced-marks relation Flags) and C05_invoke_total (in every program no operation runs out of the budget apiInvoke hands out: the model's out-of-fuel answer is unreachable); the on-stack guard (C20_onstack) turns a run-time cycle into an error",
             "K-graph: IsAcyclic via hook vs model, exhaustive on all digraphs with <= 4 nodes + random graphs, each answer also judged on its own; container level: cycle verdicts, cycle lengths, process survival compared with the model under a cycle-heavy generator profile"),
     "C06": ("C06_provide_unchanged proved at full strength: whenever Provide returns an error (any cause, any state, with or without Export, cycle in the target or any descendant) the container equals the one before in every component except the isVerifiedAcyclic flags — proved through the undo actually performed (rollbackProvide: graph holders truncated, node tables truncated, providers of the target restored), with the invariant `Work` over everything the attempt may have done; C06_decorate_unchanged (a rejected Decorate changes orphan graph nodes only), C06_no_execution", "metamorphic twins on the real library: history with / without each rejected Provide/Decorate followed by a probe sweep must behave identically; full traces compared with the model"),
     "C07": ("C07_failed_writes_nothing / C07_failed_deco_writes_nothing (a failing execution changes no cache, flag or registry entry), C07_retry_ctor / C07_retry_deco (after a failing call the node is not built, off the stack / ready, hence executed again on the next demand), C07_others_kept are proved; root cause: C13_ctor_outcome / C13_deco_outcome",
